@@ -107,8 +107,36 @@ class Ctx:
 
     # ---- P layer -------------------------------------------------------------------------
     def function(self, qname, source_sha, extraction=None):
+        first = qname not in self.functions
         self.functions.setdefault(qname, {"source_sha": source_sha, "extraction": extraction or {},
                                           "obligations": 0})
+        if first and extraction and extraction.get("decorator_effects"):
+            self._decorator_obligation(qname, extraction["decorator_effects"])
+
+    def _decorator_obligation(self, qname, effects):
+        """the extraction drops decorators: the contracts are discharged for the undecorated body. That is sound for transparent
+        decorators; a CACHING decorator makes equal calls return the SAME object without running the body - sound only when every
+        returned value is immutable (otherwise results alias across callers, and callers that mutate their result corrupt the others)"""
+        name = f"extraction.decorators_are_transparent[{qname}]"
+        status, detail, model = PROVED, "; ".join(e["decorator"] + " = " + e["class"] for e in effects), None
+        for e in effects:
+            if e["class"] == "caching":
+                bad = [r for r in e["returns"] if r[2] == "mutable"]
+                unk = [r for r in e["returns"] if r[2] == "unknown"]
+                if bad:
+                    status, model = REFUTED, {"decorator": e["decorator"], "returns_a_mutable_object": bad[:3]}
+                    detail = (f"{e['decorator']} on a function under contract whose result is a mutable object (line {bad[0][0]}: return {bad[0][1]}): "
+                              "equal arguments get the SAME object, the verified body is not what runs for the second call")
+                    break
+                if unk and status == PROVED:
+                    status = UNKNOWN
+                    detail = f"{e['decorator']}: cannot tell whether `return {unk[0][1]}` (line {unk[0][0]}) is immutable"
+            elif e["class"] == "other" and status == PROVED:
+                status = UNKNOWN
+                detail = f"{e['decorator']}: unknown decorator dropped by the extraction - the verified body may not be what runs"
+        self.obligation(name, qname, status, "ast", 0.0, detail=detail, model=model, sample=status != PROVED)
+        if status == REFUTED:
+            self.violation(name, {"function": qname, "model": model, "solver_output": detail, "snippet": None}, False, what=detail[:220])
 
     def obligation(self, name, function, status, backend="z3", secs=0.0, detail=None, model=None,
                    sample=False):
